@@ -80,7 +80,7 @@ PROPS = {
     },
     "C01": {
         "level": "proof",
-        "units": ["nameparse", "labeliter"],
+        "units": ["nameparse", "labeliter", "sections"],
         "kani": [
             {"group": "g0", "name": "c01_header_getters_total", "kind": "complete", "tier": "quick",
              "what": "Message::from_slice + every Header/HeaderCounts/HeaderSection getter on every 12-octet header: no panic, "
@@ -99,8 +99,12 @@ PROPS = {
                        "uncompressed length <= 255), ParsedName::{skip, parser, iter, parent, as_flat_slice}, the *unchecked* "
                        "ParsedNameIter::{get_label, next, next_back} (panic!(\"bad label\"), index and `len -= ..` underflow "
                        "unreachable under the validity parse_ref establishes; validity preserved, so results can be iterated again), "
-                       "SliceLabelsIter::next (total on every slice and offset). Kani covers the unsafe header casts.",
-        "not_covered": "Section/record iterators (QuestionSection, RecordSection, ParsedRecord, RecordHeader), typed RDATA parsers, OPT, "
+                       "SliceLabelsIter::next (total on every slice and offset). Unit `sections`: QuestionSection::{next, answer}, "
+                       "RecordSection::{new, next, skip_next, next_section}, ParsedRecord::{new, parse, skip}, RecordHeader::{new, rdlen, "
+                       "parse_ref, parse_rdlen}, Section::{first, count, next_section}: the parser never moves backwards or out of the "
+                       "message, a record's RDATA window lies inside the message, each iterator yields at most `count` items and "
+                       "nothing after its first error (fuse), and the skip loops terminate. Kani covers the unsafe header casts.",
+        "not_covered": "RecordIter/AnyRecordIter and into_record (typed RDATA parsers for all types), OPT, MessageIter, "
                        "Message::canonical_name/is_answer (CBMC does not terminate on them: not under contract), dig-style and "
                        "zone-style Display (core::fmt), ParsedName::split_first (Octets::range), 'traversed twice yields the same "
                        "result' (follows from purity over an immutable slice; not stated as an obligation).",
